@@ -1,0 +1,42 @@
+//go:build verif
+// +build verif
+
+package input
+
+import (
+	"net"
+
+	"github.com/grafana/carbon-relay-ng/cfg"
+	"github.com/streadway/amqp"
+)
+
+// Verification builds only (C12): the AMQP connector type and the fields it must
+// initialise are unexported, so a driver outside this package cannot feed the real
+// consume loop.  Add-only; nothing here is referenced by production code.
+
+type verifNopCloser struct{}
+
+func (verifNopCloser) Close() error { return nil }
+
+// VerifNewMockAMQP returns an Amqp plugin wired (like getMockConnector in
+// amqp_test.go) to an in-process delivery channel instead of a broker, and a
+// function that pushes one message body through that channel.  The channel is
+// unbuffered: push returns once the consume loop has taken the delivery, i.e.
+// after every earlier delivery has been processed completely.
+func VerifNewMockAMQP(config cfg.Config, dispatcher Dispatcher) (*Amqp, func(body []byte)) {
+	delivery := make(chan amqp.Delivery)
+	connector := func(a *Amqp) error {
+		a.channel = verifNopCloser{}
+		a.conn = verifNopCloser{}
+		a.delivery = delivery
+		return nil
+	}
+	a := NewAMQP(config, dispatcher, connector)
+	return a, func(body []byte) { delivery <- amqp.Delivery{Body: body} }
+}
+
+// VerifAddrs returns the addresses the listener is bound to (valid after Start
+// returned; the listener is created with port 0 by the drivers).
+func (l *Listener) VerifAddrs() (tcp net.Addr, udp net.Addr) {
+	return l.tcpList.Addr(), l.udpConn.LocalAddr()
+}
